@@ -254,6 +254,22 @@ def connOp (sc : Scn) (cid : String) (dc : DConn) (op : String) (args ts : List 
           else "MODEL-compressed-bytes-differ " ++ toHex bs
       (sc.putDConn cid { dc with w := c.w, r := c.r }, resLine out c.w.log)
     | none => (sc, "bad-op")
+  | "zr", v :: _ =>
+    -- read a compressed message to its end through the decompressing reader; the sizes of
+    -- compress/flate's read requests, its verdict and the drain's request size are environment answers
+    match ((v.drop 1).toString.toNat?).bind (fun i => dc.vh[i]?) with
+    | some rid =>
+      let reqs := match kv ts "reqs" with
+        | some "-" => []
+        | some s => (s.splitOn ",").filterMap (·.toNat?)
+        | none => []
+      let env : ZEnv := ⟨reqs, kvBool ts "ok", (kvNat ts "drain").getD 8192⟩
+      let ((_, res), c) := zReadToEnd ⟨w, dc.r⟩ rid env
+      let out := match res with
+        | .complete => "complete"
+        | .failed e => "err " ++ rerrName e
+      (sc.putDConn cid { dc with w := c.w, r := c.r }, resLine out c.w.log)
+    | none => (sc, "bad-op")
   | "rm", _ =>
     let (res, c) := nextReader ⟨w, dc.r⟩
     match res with
